@@ -32,7 +32,9 @@ RULE = ('Hypothesis: CamxSpec restricted to the formats that have both '
         'clock) is a violation; if both complete: dimensions present in '
         'both have equal lengths, variables present in both are float32 '
         'bit-equal after squeezing length-1 axes, TFLAG equal where both '
-        'define it.  If both readers reject the file the case is outside '
+        'define it, and the (date, time) sequence of the record reader\'s '
+        'timerange() (two-digit-year date, hours or HHMM) equals the memmap '
+        'TFLAG in length and values.  If both readers reject the file the case is outside '
         '"files that both reader families accept" (label both-reject).  '
         'Non-trivial: steps>1 and nz>1, or a day/year/century/leap '
         'roll-over inside the file.  Distinct by sha1 of the case spec.' + '  Domain by construction: lateral_boundary nx, ny >= 2 (an edge needs its two corner cells), EMISSIONS nz = 1, AIRQUALITY one step, steps of whole hours (lateral_boundary 1 h), every instant incl. the last end time inside 1970-2069, species names not DATE/TFLAG/ETFLAG, a 3-variable cloud_rain file whose size is also a whole number of 5-variable steps is not generated (the format stores no variable count), old-style landuse with at most one optional field.')
@@ -63,6 +65,7 @@ class Seen(object):
         self.dims = {}
         self.vars = {}
         self.tflag = None
+        self.times = None     # record reader: list(timerange())
 
 
 def observe(spec, path, reader):
@@ -85,6 +88,9 @@ def observe(spec, path, reader):
                     s.tflag = a
             else:
                 s.vars[k] = a
+        if reader == 'read' and hasattr(f, 'timerange'):
+            s.stage = 'timerange'
+            s.times = [(int(d), float(t)) for d, t in f.timerange()]
     except C.NonTermination as e:
         s.status = 'nonterm'
         s.where = exc_where(e)
@@ -185,6 +191,24 @@ def check_case(spec):
                     'equals' if eb else 'differs from')
             r.fail('values-differ', msg + who, klass=fmt)
             break
+    if mm.tflag is not None and rd.times is not None:
+        # the record readers expose their time flags as the (date, time)
+        # pairs of timerange(): two-digit-year julian date, hours (uamiv) or
+        # HHMM (met files)
+        fac = 10000 if fmt == 'uamiv' else 100
+        got = []
+        for d, t in rd.times:
+            try:
+                y, j = R.expand_yyjjj(d)
+                got.append([y * 1000 + j, int(round(t * fac))])
+            except R.LayoutError:
+                got.append([int(d), int(round(t * fac))])
+        want = np.asarray(mm.tflag)[:, 0, :].tolist()
+        if got != want:
+            r.fail('timeflags-differ', 'record reader timerange() gives %d '
+                   'flags %s, memmap TFLAG has %d: %s (encoded %s)' % (
+                       len(got), got[:8], len(want), want[:8],
+                       m.tflag.tolist()[:8]), klass=fmt)
     if mm.tflag is not None and rd.tflag is not None and \
             not np.array_equal(mm.tflag, rd.tflag):
         r.fail('tflag-differ', 'memmap %s, record reader %s' % (
@@ -201,7 +225,7 @@ def _read_side(f, fmt):
     """the failure is on the record reader's side, or a disagreement"""
     return (f.clause in ('one-reader-raises', 'nontermination') and
             f.klass == fmt + '/read') or \
-        f.clause in ('dims-differ', 'values-differ')
+        f.clause in ('dims-differ', 'values-differ', 'timeflags-differ')
 
 
 def _wind_hdr_collision(spec):
@@ -210,7 +234,7 @@ def _wind_hdr_collision(spec):
 
 
 known.register('C13-read-uamiv-midnight', lambda spec, f: (
-    spec['fmt'] == 'uamiv' and K.crosses_midnight(spec, with_end=True) and
+    spec['fmt'] == 'uamiv' and K.uamiv_read_time_class(spec) and
     _read_side(f, 'uamiv')))
 known.register('C13-read-uamiv-emissions-squeeze', lambda spec, f: (
     spec['fmt'] == 'uamiv' and spec.get('name') == 'EMISSIONS' and
@@ -234,7 +258,7 @@ known.register('C13-wind-memmap-1cell', lambda spec, f: (
     spec['fmt'] == 'wind' and K.one_cell(spec) and
     ((f.clause in ('one-reader-raises', 'nontermination') and
       f.klass == 'wind/memmap') or
-     f.clause in ('dims-differ', 'values-differ'))))
+     f.clause in ('dims-differ', 'values-differ', 'timeflags-differ'))))
 known.register('C13-read-wind-recsize', lambda spec, f: (
     _wind_hdr_collision(spec) and _read_side(f, 'wind')))
 known.register('C13-read-met-multiday-step', lambda spec, f: (
